@@ -5,6 +5,7 @@ import (
 	"sync/atomic"
 	"unsafe"
 
+	"github.com/philpearl/plenc/internal/verifhook"
 	"github.com/philpearl/plenc/plenccore"
 )
 
@@ -136,6 +137,7 @@ func (c *InternedStringCodec) Read(data []byte, ptr unsafe.Pointer, wt plenccore
 
 	s, ok := m[string(data)]
 	if !ok {
+		verifhook.Yield("intern.miss")
 		s = c.addString(data)
 	}
 
@@ -146,6 +148,7 @@ func (c *InternedStringCodec) Read(data []byte, ptr unsafe.Pointer, wt plenccore
 func (c *InternedStringCodec) addString(data []byte) string {
 	c.Lock()
 	defer c.Unlock()
+	verifhook.Yield("intern.locked")
 	p := atomic.LoadPointer(&c.strings)
 	m := *(*map[string]string)((unsafe.Pointer)(&p))
 
@@ -161,6 +164,7 @@ func (c *InternedStringCodec) addString(data []byte) string {
 		s = string(data)
 		m2[s] = s
 
+		verifhook.Yield("intern.publish")
 		atomic.StorePointer(&c.strings, *(*unsafe.Pointer)(unsafe.Pointer(&m2)))
 	}
 	return s
